@@ -321,6 +321,9 @@ class CallMixin:
                 v = self.find_class_attr(ci, name)
                 if v is not _MISSING:
                     return v
+        if o.cls and self.abstract_class(o.cls) is None and o.cls[:1].isupper() and not name.startswith("__"):
+            # instance of an abstract class the theory says nothing about: methods are uninterpreted pure functions
+            return BoundMethod(o, NativeFn(f"{o.cls}.{name}", self.default_abstract(o.cls, name)))
         if name == "shape":
             return UVal(self.ctx.fn("shape_of", U, U)(o.t), "shape")
         if name == "at":
